@@ -104,6 +104,7 @@ def notes_case(draw):
     c["t1"], c["t2"] = draw(two(vals))
     if c["offset_ratio"] is None and c["axis"] in ("offset_ratio", "offset_min_tolerance"):
         c["offset_ratio"] = 0.2
+    c["shuffle_notes"] = draw(st.booleans())
     # the tolerances that are held fixed are taken from a wide, non-default range: an interplay between two tolerances
     # (e.g. a floor that is only honoured below a hard-coded value) is invisible while the others stay near their defaults
     if draw(st.booleans()):
@@ -119,6 +120,10 @@ def pred_notes(case, ctx):
     from checks.c05 import _arrs
     ri, rp, rv = _arrs(case["ref"])
     ei, ep, ev = _arrs(case["est"])
+    if case.get("shuffle_notes"):      # notes need not be listed in onset order
+        rk, ek = list(case["rperm"]), list(case["eperm"])
+        ri, rp, rv, ei, ep, ev = ri[rk], rp[rk], rv[rk], ei[ek], ep[ek], ev[ek]
+        ctx.event("notes_not_in_onset_order")
     base = dict(onset_tolerance=case["onset_tolerance"], pitch_tolerance=case["pitch_tolerance"], offset_ratio=case["offset_ratio"],
                 offset_min_tolerance=case["offset_min_tolerance"], strict=case["strict"])
     ax = case["axis"]
